@@ -10,20 +10,27 @@
 //	             hc.resp / hc.idle) and records the callback arguments and the host's flag word inside every
 //	             callback (binding B1).
 //
-// TLC validates both traces (HealthFlagsTrace, HealthCheckerTrace).
+//	-mode words  builds hosts the ways MOSN builds them (NewSimpleHost, cluster manager, STRICT_DNS resolution of a domain
+//	             with several records) and records what every host object reports after operations on one of them.
+//
+// TLC validates the traces (HealthFlagsTrace, HealthCheckerTrace, HealthWordsTrace).
 package main
 
 import (
+	"context"
 	"encoding/json"
 	"flag"
 	"fmt"
+	"net"
 	"os"
 	"runtime"
 	"sort"
+	"strings"
 	"sync"
 	"sync/atomic"
 	"time"
 
+	"github.com/miekg/dns"
 	"mosn.io/api"
 	v2 "mosn.io/mosn/pkg/config/v2"
 	"mosn.io/mosn/pkg/log"
@@ -543,9 +550,10 @@ func (r *caseRun) script() {
 			r.evs = append(r.evs, vh.Ev{"ev": "stopped", "k": k})
 			return
 		}
-		// timers of earlier checks that fired although the answer was given at once (slow machine): their checks
-		// are over, the signals stay held for ever
-		r.holds = nil
+		// r.holds may still hold timers of earlier checks that fired although the answer was given at once (slow
+		// machine), and under load the timer of THIS check can even be reported before its CheckHealth call: nothing
+		// is thrown away; a signal that turns out to belong to a finished check is dropped by the checker and the
+		// next one is tried (letTimeout loops below).
 		if k >= 2 && latePos(seq[k-2]) == 2 {
 			r.deliver(k - 1)
 		}
@@ -555,7 +563,7 @@ func (r *caseRun) script() {
 			r.answers[k] <- s == "ok"
 			r.waitFor("answer taken and handled", slack, func() bool { return r.resps > resp0 && r.settled })
 			// no result: the answer was dropped and the code waits for the timeout of this check: let it have it
-			for i := 0; i < 2 && r.cbFor[k] == 0 && letTimeout(hcTimeout+400*time.Millisecond); i++ {
+			for i := 0; i < 3+k && r.cbFor[k] == 0 && letTimeout(hcTimeout+400*time.Millisecond); i++ {
 			}
 		} else {
 			if latePos(s) == 0 {
@@ -567,7 +575,7 @@ func (r *caseRun) script() {
 				r.tryWait(300*time.Millisecond, func() bool { return r.timeouts > t0 && r.settled })
 			}
 			// a signal that is dropped belonged to an earlier check whose timer fired late: wait for the right one
-			for i := 0; i < 2 && r.cbFor[k] == 0 && letTimeout(hcTimeout+400*time.Millisecond); i++ {
+			for i := 0; i < 3+k && r.cbFor[k] == 0 && letTimeout(hcTimeout+400*time.Millisecond); i++ {
 			}
 			if latePos(s) == 1 {
 				r.deliver(k)
@@ -694,8 +702,350 @@ func runThr(casesPath, tracePath string, par int) {
 	os.WriteFile(tracePath+".summary", sum, 0644)
 }
 
+// ---------------------------------------------------------------- words (where the flag word lives)
+//
+// -mode words: every case = a topology (which addresses a SIMPLE cluster fed with NewSimpleHost hosts, a cluster-manager
+// cluster fed through UpdateClusterHosts and the records of one or two STRICT_DNS domains have) + a sequence of operations
+// (condition set/cleared on one host object; one health check of a resolved host answered ok/fail through the cluster's
+// own health checker).  After every operation HealthFlag()/Health() of EVERY host object is recorded.  The domains are
+// resolved by a DNS server of the driver on a loopback UDP port.
+
+type wHost struct {
+	O string `json:"o"`
+	A string `json:"a"`
+}
+type wOp struct {
+	H    wHost  `json:"h"`
+	Kind string `json:"kind"`
+	Flag string `json:"flag"`
+}
+type wCase struct {
+	Topo struct {
+		Static []string `json:"static"`
+		Mgr    []string `json:"mgr"`
+		D1     []string `json:"d1"`
+		D2     []string `json:"d2"`
+	} `json:"topo"`
+	Hc  bool   `json:"hc"`
+	Ut  uint32 `json:"ut"`
+	Ht  uint32 `json:"ht"`
+	Ops []wOp  `json:"ops"`
+}
+
+var dnsRecords sync.Map // fqdn -> []string (ips)
+
+func startDNS() string {
+	pc, err := net.ListenPacket("udp", "127.0.0.1:0")
+	vh.Must(err, "dns listen")
+	mux := dns.NewServeMux()
+	mux.HandleFunc(".", func(w dns.ResponseWriter, r *dns.Msg) {
+		m := new(dns.Msg)
+		m.SetReply(r)
+		if len(r.Question) == 1 && r.Question[0].Qtype == dns.TypeA {
+			if v, ok := dnsRecords.Load(strings.ToLower(r.Question[0].Name)); ok {
+				for _, ip := range v.([]string) {
+					m.Answer = append(m.Answer, &dns.A{Hdr: dns.RR_Header{Name: r.Question[0].Name, Rrtype: dns.TypeA, Class: dns.ClassINET, Ttl: 3600}, A: net.ParseIP(ip)})
+				}
+			}
+		}
+		w.WriteMsg(m)
+	})
+	srv := &dns.Server{PacketConn: pc, Handler: mux}
+	go srv.ActivateAndServe()
+	_, port, _ := net.SplitHostPort(pc.LocalAddr().String())
+	return port
+}
+
+// wSession: health-check session of one resolved host; the answer is handed over by the case.
+type wSession struct{ ans chan bool }
+
+func (s *wSession) CheckHealth() bool { return <-s.ans }
+func (s *wSession) OnTimeout()        {}
+
+var wSessions sync.Map // address -> *wSession of the running case
+
+type wFactory struct{}
+
+func (wFactory) NewSession(cfg map[string]interface{}, host types.Host) types.HealthCheckSession {
+	if v, ok := wSessions.Load(host.AddressString()); ok {
+		return v.(*wSession)
+	}
+	return &wSession{ans: make(chan bool)} // the unresolved placeholder host, hosts of finished cases: never answers
+}
+
+type wWorker struct {
+	id      int
+	dnsPort string
+	pub     chan struct{} // a cluster of this worker published a host set
+	cb      chan wCb
+}
+type wCb struct {
+	addr    string
+	changed bool
+	ok      bool
+}
+
+var wByCluster sync.Map // cluster name -> *wWorker
+
+func (w *wWorker) ip(a string) string   { return fmt.Sprintf("10.17.%d.%c", w.id+1, a[1]) } // a1 -> 10.17.<w>.1
+func (w *wWorker) addr(a string) string { return w.ip(a) + ":80" }
+func (w *wWorker) name(o string) string { return fmt.Sprintf("c16w%d-%s", w.id, o) }
+func (w *wWorker) domain(o string, n int) string {
+	return fmt.Sprintf("%s-%d.w%d.c16.test", o, n, w.id)
+}
+
+func hostsOf(snap types.ClusterSnapshot) []types.Host {
+	out := []types.Host{}
+	snap.HostSet().Range(func(h types.Host) bool { out = append(out, h); return true })
+	return out
+}
+
+func (w *wWorker) run(n int, c wCase, ad *cluster.MngAdapter) ([]vh.Ev, error) {
+	abbr := map[string]string{} // real address -> a1..a3
+	all := map[string]bool{}
+	for _, l := range [][]string{c.Topo.Static, c.Topo.Mgr, c.Topo.D1, c.Topo.D2} {
+		for _, a := range l {
+			all[a] = true
+			abbr[w.addr(a)] = a
+		}
+	}
+	type entry struct {
+		o string
+		h types.Host
+	}
+	hosts := []entry{}
+	var stops []func()
+	defer func() {
+		for _, f := range stops {
+			f()
+		}
+	}()
+	// fresh words
+	probe := cluster.NewCluster(v2.Cluster{Name: w.name("probe"), LbType: v2.LB_RANDOM}).Snapshot().ClusterInfo()
+	clearAll := func() {
+		for a := range all {
+			force(newHost(probe, w.addr(a)), nil)
+		}
+	}
+	clearAll()
+	if len(c.Topo.Static) > 0 {
+		cl := cluster.NewCluster(v2.Cluster{Name: w.name("static"), ClusterType: v2.SIMPLE_CLUSTER, LbType: v2.LB_RANDOM})
+		hs := []types.Host{}
+		for _, a := range c.Topo.Static {
+			hs = append(hs, newHost(cl.Snapshot().ClusterInfo(), w.addr(a)))
+		}
+		cl.UpdateHosts(cluster.NewHostSet(hs))
+		for _, h := range hostsOf(cl.Snapshot()) {
+			hosts = append(hosts, entry{"static", h})
+		}
+	}
+	if len(c.Topo.Mgr) > 0 {
+		name := w.name("mgr")
+		if err := ad.TriggerClusterAddOrUpdate(v2.Cluster{Name: name, ClusterType: v2.SIMPLE_CLUSTER, LbType: v2.LB_RANDOM}); err != nil {
+			return nil, err
+		}
+		cfgs := []v2.Host{}
+		for _, a := range c.Topo.Mgr {
+			cfgs = append(cfgs, v2.Host{HostConfig: v2.HostConfig{Address: w.addr(a), Hostname: a}})
+		}
+		if err := ad.TriggerClusterHostUpdate(name, cfgs); err != nil {
+			return nil, err
+		}
+		for _, h := range hostsOf(ad.GetClusterSnapshot(context.Background(), name)) {
+			hosts = append(hosts, entry{"mgr", h})
+		}
+		stops = append(stops, func() { ad.TriggerClusterHostUpdate(name, nil) })
+	}
+	for _, d := range []struct {
+		o    string
+		recs []string
+	}{{"d1", c.Topo.D1}, {"d2", c.Topo.D2}} {
+		if len(d.recs) == 0 {
+			continue
+		}
+		domain := w.domain(d.o, n)
+		ips := []string{}
+		for _, a := range d.recs {
+			ips = append(ips, w.ip(a))
+			if d.o == "d1" && c.Hc {
+				wSessions.Store(w.addr(a), &wSession{ans: make(chan bool)})
+			}
+		}
+		dnsRecords.Store(domain+".", ips)
+		cfg := v2.Cluster{Name: w.name(d.o), ClusterType: v2.STRICT_DNS_CLUSTER, LbType: v2.LB_RANDOM,
+			DnsResolverConfig: v2.DnsResolverConfig{Servers: []string{"127.0.0.1"}, Port: w.dnsPort, Timeout: 2, Attempts: 2},
+			DnsRefreshRate:    &api.DurationConfig{Duration: time.Hour}}
+		if d.o == "d1" && c.Hc {
+			cfg.HealthCheck = v2.HealthCheck{HealthCheckConfig: v2.HealthCheckConfig{Protocol: "verif-c16-words", ServiceName: "c16words",
+				HealthyThreshold: c.Ht, UnhealthyThreshold: c.Ut, InitialDelaySeconds: api.DurationConfig{Duration: time.Millisecond}},
+				Timeout: time.Minute, Interval: time.Millisecond, IntervalJitter: time.Nanosecond}
+		}
+		cl := cluster.NewCluster(cfg)
+		stops = append(stops, cl.StopHealthChecking, func() { dnsRecords.Delete(domain + ".") })
+		if d.o == "d1" && c.Hc {
+			cl.AddHealthCheckCallbacks(func(h types.Host, changed bool, isHealthy bool) {
+				select {
+				case w.cb <- wCb{h.AddressString(), changed, isHealthy}:
+				case <-time.After(5 * time.Second):
+				}
+			})
+		}
+		cl.UpdateHosts(cluster.NewHostSet([]types.Host{cluster.NewSimpleHost(v2.Host{HostConfig: v2.HostConfig{Address: domain + ":80", Hostname: domain}}, cl.Snapshot().ClusterInfo())}))
+		// wait until the resolved records are published (hook cluster.publish.end)
+		deadline := time.After(8 * time.Second)
+		for {
+			hs := hostsOf(cl.Snapshot())
+			okn := 0
+			for _, h := range hs {
+				if abbr[h.AddressString()] != "" {
+					okn++
+				}
+			}
+			if okn == len(d.recs) && len(hs) == len(d.recs) {
+				for _, h := range hs {
+					hosts = append(hosts, entry{d.o, h})
+				}
+				break
+			}
+			select {
+			case <-w.pub:
+			case <-deadline:
+				return nil, fmt.Errorf("domain %s not resolved to %v (have %d hosts)", domain, ips, len(hs))
+			}
+		}
+	}
+	find := func(o, a string) types.Host {
+		for _, e := range hosts {
+			if e.o == o && abbr[e.h.AddressString()] == a {
+				return e.h
+			}
+		}
+		return nil
+	}
+	evs := []vh.Ev{{"ev": "topo", "static": c.Topo.Static, "mgr": c.Topo.Mgr, "d1": c.Topo.D1, "d2": c.Topo.D2, "hc": c.Hc, "ut": c.Ut, "ht": c.Ht, "hosts": len(hosts)}}
+	for _, op := range c.Ops {
+		h := find(op.H.O, op.H.A)
+		if h == nil {
+			return nil, fmt.Errorf("no host %v", op.H)
+		}
+		changed := false
+		switch op.Kind {
+		case "set":
+			h.SetHealthFlag(bitOf[op.Flag])
+		case "clear":
+			h.ClearHealthFlag(bitOf[op.Flag])
+		case "check":
+			v, _ := wSessions.Load(h.AddressString())
+			select {
+			case v.(*wSession).ans <- (op.Flag == "ok"):
+			case <-time.After(8 * time.Second):
+				return nil, fmt.Errorf("health checker never checked %s", h.AddressString())
+			}
+			for got := false; !got; {
+				select {
+				case cb := <-w.cb:
+					if cb.addr == h.AddressString() {
+						changed, got = cb.changed, true
+					}
+				case <-time.After(8 * time.Second):
+					return nil, fmt.Errorf("no health-check callback for %s", h.AddressString())
+				}
+			}
+		}
+		views := []vh.Ev{}
+		for _, e := range hosts {
+			views = append(views, vh.Ev{"o": e.o, "a": abbr[e.h.AddressString()], "flags": decode(e.h.HealthFlag()), "health": e.h.Health()})
+		}
+		evs = append(evs, vh.Ev{"ev": "op", "h": op.H, "kind": op.Kind, "flag": op.Flag, "changed": changed, "views": views})
+	}
+	for _, e := range hosts { // leave every word this case may have touched empty, whatever it is keyed by
+		force(e.h, nil)
+	}
+	for a := range all {
+		wSessions.Delete(w.addr(a))
+	}
+	clearAll()
+	return evs, nil
+}
+
+func runWords(casesPath, tracePath string, par int) {
+	tr := vh.NewTrace(tracePath)
+	defer tr.Close()
+	healthcheck.RegisterSessionFactory("verif-c16-words", wFactory{})
+	cluster.GetClusterMngAdapterInstance().Destroy()
+	cluster.NewClusterManagerSingleton(nil, nil, nil)
+	ad := cluster.GetClusterMngAdapterInstance()
+	port := startDNS()
+	vh.Sink(func(ev string, kv []interface{}) {
+		if ev != "cluster.publish.end" || len(kv) == 0 {
+			return
+		}
+		if c, ok := kv[0].(types.Cluster); ok {
+			if v, ok := wByCluster.Load(c.Snapshot().ClusterInfo().Name()); ok {
+				select {
+				case v.(*wWorker).pub <- struct{}{}:
+				default:
+				}
+			}
+		}
+	})
+	defer vh.Sink(nil)
+	cases := []wCase{}
+	vh.Must(vh.ReadCases(casesPath, func(raw json.RawMessage) error {
+		var c wCase
+		if err := json.Unmarshal(raw, &c); err != nil {
+			return err
+		}
+		cases = append(cases, c)
+		return nil
+	}), "words cases")
+	var next int64 = -1
+	var emitMu sync.Mutex
+	var nOK, nFail, nRetry int64
+	var wg sync.WaitGroup
+	for p := 0; p < par; p++ {
+		w := &wWorker{id: p, dnsPort: port, pub: make(chan struct{}, 8), cb: make(chan wCb, 8)}
+		for _, o := range []string{"static", "mgr", "d1", "d2"} {
+			wByCluster.Store(w.name(o), w)
+		}
+		wg.Add(1)
+		go func() {
+			defer wg.Done()
+			for {
+				i := int(atomic.AddInt64(&next, 1))
+				if i >= len(cases) {
+					return
+				}
+				var evs []vh.Ev
+				var err error
+				for attempt := 0; attempt < 2; attempt++ {
+					if evs, err = w.run(i*2+attempt, cases[i], ad); err == nil {
+						break
+					}
+					atomic.AddInt64(&nRetry, 1)
+				}
+				if err != nil {
+					atomic.AddInt64(&nFail, 1)
+					fmt.Printf("FAILED case %d: %v\n", i, err)
+					continue
+				}
+				atomic.AddInt64(&nOK, 1)
+				emitMu.Lock()
+				for _, e := range evs {
+					tr.Emit(e)
+				}
+				emitMu.Unlock()
+			}
+		}()
+	}
+	wg.Wait()
+	fmt.Printf("words cases=%d ok=%d failed=%d retries=%d events=%d\n", len(cases), nOK, nFail, nRetry, tr.Len())
+	sum, _ := json.Marshal(map[string]int64{"cases": int64(len(cases)), "ok": nOK, "failed": nFail, "retries": nRetry})
+	os.WriteFile(tracePath+".summary", sum, 0644)
+}
+
 func main() {
-	mode := flag.String("mode", "flags", "flags|mix|thr")
+	mode := flag.String("mode", "flags", "flags|mix|thr|words")
 	cases := flag.String("cases", "", "cases file")
 	out := flag.String("trace", "", "trace output")
 	par := flag.Int("par", 48, "cases in flight (thr)")
@@ -712,5 +1062,8 @@ func main() {
 		runFlags(*cases, *out, true)
 	case "thr":
 		runThr(*cases, *out, *par)
+	case "words":
+		log.DefaultLogger.SetLogLevel(log.FATAL) // the placeholder host "domain:80" is looked up with the system resolver: noise
+		runWords(*cases, *out, *par)
 	}
 }
